@@ -16,6 +16,10 @@ func (c *Conversation) UseExtraSymmetricKey(usage uint32, usageData []byte) ([]b
 		return nil, nil, newOtrError("cannot send message in current state")
 	}
 
+	if len(usageData) > 0xffff-4 {
+		return nil, nil, newOtrError("usage data does not fit into a TLV")
+	}
+
 	t := tlv{
 		tlvType:   tlvTypeExtraSymmetricKey,
 		tlvLength: 4 + uint16(len(usageData)),
